@@ -37,6 +37,36 @@ Theorem C19_dead_peer_closed : forall cfg g now t p,
   snd (e_tick cfg g now) = [OErr ETimeout] /\ e_phase (g_st (fst (e_tick cfg g now))) = PClosed.
 Proof. exact dead_peer_closed. Qed.
 
+(* ... at trace level: whatever else happens after the PING at p - outbound writes (which refresh the activity
+   stamp), application sends, inbound frames that are not a PONG, earlier ticks - the first tick at or after
+   p + HEARTBEAT_TIMEOUT closes the connection; the deadline is anchored at the PING, not at the last activity *)
+Theorem C19_dead_peer_closed_despite_traffic : forall cfg t p now is g,
+  c_hb_timeout cfg = Some t -> h_waiting (g_hb g) = true -> h_last_ping (g_hb g) = Some p ->
+  unanswered_run cfg g is = true ->
+  hb_active (fst (e_run cfg g is)) -> p + t <= now ->
+  snd (e_tick cfg (fst (e_run cfg g is)) now) = [OErr ETimeout] /\
+  e_phase (g_st (fst (e_tick cfg (fst (e_run cfg g is)) now))) = PClosed.
+Proof. exact dead_peer_closed_despite_traffic. Qed.
+(* outbound writes refresh the activity stamp and nothing else; no PING sooner than one interval after a write *)
+Theorem C19_wrote_only_refreshes_activity : forall cfg g w,
+  let g' := fst (e_wrote cfg g w) in
+  g_st g' = g_st g /\ g_acc g' = g_acc g /\ h_last_activity (g_hb g') = w /\
+  h_last_ping (g_hb g') = h_last_ping (g_hb g) /\ h_waiting (g_hb g') = h_waiting (g_hb g) /\
+  snd (e_wrote cfg g w) = [].
+Proof. exact wrote_only_refreshes_activity. Qed.
+Theorem C19_ping_not_early_after_write : forall cfg g w now x,
+  In x (snd (e_tick cfg (fst (e_wrote cfg g w)) now)) -> (exists b z, x = OSend b z) ->
+  exists ivl, c_hb_ivl cfg = Some ivl /\ ivl <= now - w.
+Proof. exact ping_not_early_after_write. Qed.
+(* the session's backstop timer (get_pong_deadline) is PING time + timeout and is not moved by writes *)
+Theorem C19_pong_deadline_from_ping : forall cfg g p,
+  h_waiting (g_hb g) = true -> h_last_ping (g_hb g) = Some p ->
+  e_pong_deadline cfg g = Some (p + match c_hb_timeout cfg with Some t => t | None => 30000000000 end).
+Proof. exact pong_deadline_from_ping. Qed.
+Theorem C19_pong_deadline_ignores_writes : forall cfg g w,
+  e_pong_deadline cfg (fst (e_wrote cfg g w)) = e_pong_deadline cfg g.
+Proof. exact pong_deadline_ignores_writes. Qed.
+
 (* the heartbeat logic closes a connection ONLY when a PING has been outstanding for the timeout ... *)
 Theorem C19_timeout_only_when_unanswered : forall cfg g now,
   In (OErr ETimeout) (snd (e_tick cfg g now)) ->
@@ -85,4 +115,18 @@ Example C19_example :
   let '(g, os) := e_run cfg (e_new 0) [INet hs 0; ITick 500; ITick 1200; ITick 1500; ITick 1800] in
   hb_active (fst (e_run cfg (e_new 0) [INet hs 0])) /\
   map (fun o => length o) os = [4; 0; 1; 0; 1]%nat /\ e_phase (g_st g) = PClosed.
+Proof. vm_compute. repeat split; try reflexivity; congruence. Qed.
+
+Example C19_example_writes :
+  let cfg := {| c_server := true; c_stype := s_PULL; c_rid := None; c_sec_enabled := false; c_allow_v2 := true;
+                c_use_plain := false; c_use_curve := false; c_use_noise := false; c_plain_user := None;
+                c_plain_pass := None; c_opaque_ok := false; c_hb_ivl := Some 1000; c_hb_timeout := Some 500;
+                c_cork := false; c_zc := false; c_maxsz := (-1)%Z |} in
+  let hs := (255 :: repeat 0 8 ++ [127; 3; 0] ++ mech_field s_NULL ++ [0] ++ repeat 0 31) ++
+            enc_codec (cmd_frame ((5 :: s_READY) ++ enc_prop s_SocketType s_PUSH)) in
+  let g1 := fst (e_run cfg (e_new 0) [INet hs 0; ITick 1200]) in
+  h_waiting (g_hb g1) = true /\ h_last_ping (g_hb g1) = Some 1200 /\
+  unanswered_run cfg g1 [IWrote 1300; IWrote 1500; ITick 1600; IWrote 1650] = true /\
+  hb_active (fst (e_run cfg g1 [IWrote 1300; IWrote 1500; ITick 1600; IWrote 1650])) /\
+  e_pong_deadline cfg (fst (e_run cfg g1 [IWrote 1300; IWrote 1500; ITick 1600; IWrote 1650])) = Some 1700.
 Proof. vm_compute. repeat split; try reflexivity; congruence. Qed.
